@@ -78,8 +78,39 @@ def _read_values(vc):
 STR_VARIANTS = [("n=%d,%s" % (n, o), (n, o)) for n in (0, 1, 2, 3) for o in ("<", ">")]
 
 
+def _replay_strings(md, vparam, model, st):
+    """the counter-model's bytes given to the real String.read_values; expected strings decoded independently"""
+    n, order = vparam
+    from pyvc.vc import eval_array
+    from pyvc.models import content_array
+    pos = md.get("pos0", 0)
+    size = md.get("size_f", 0)
+    if pos < 0 or size < 0 or pos > 1 << 12:
+        return None
+    body = eval_array(model, content_array("content_f"), 0, min(max(size, 0), pos + 4096))   # a prefix suffices
+    script = """
+import io, struct, sys
+from nptdms.types import String
+content = %r
+pos0, n, order = %d, %d, %r
+offs = struct.unpack(order + "%%dL" %% n, content[pos0:pos0 + 4 * n]) if n else ()
+start = pos0 + 4 * n
+want, prev = [], 0
+for o in offs:
+    want.append(content[start + prev:start + o].decode("utf-8", errors="replace"))
+    prev = o
+if start + prev > len(content):
+    print("the model's strings lie beyond the 4 KiB prefix replayed: not realised"); sys.exit(0)
+f = io.BytesIO(content); f.seek(pos0)
+got = String.read_values(f, n, order)
+print("offsets", offs, "expected", want, "read", got, "cursor", f.tell(), "expected cursor", start + prev)
+sys.exit(0 if list(got) == want and f.tell() == start + prev else 1)
+""" % (body, pos, n, order)
+    return {"script": script, "function": "types.String.read_values"}
+
+
 @harness("string_read_values", ["types.String.read_values", "types.String.read", "types.String._decode"],
-         ["C01", "C15"], variants=STR_VARIANTS, setup=_setup, level="shape-bounded",
+         ["C01", "C15"], variants=STR_VARIANTS, setup=_setup, level="shape-bounded", replay=_replay_strings,
          bound="number of strings in the chunk <= 3 (lengths, contents and positions symbolic)")
 def _string_read_values(vc):
     n, order = vc.variant
@@ -89,9 +120,11 @@ def _string_read_values(vc):
     # well-formed: offsets table and string bytes present, offsets nondecreasing
     offs = [uint(SBytes(f.content, pos0 + 4 * i, 4), 0, 4, big) for i in range(n)]
     prev = 0
-    for o in offs:
+    for i, o in enumerate(offs):
         vc.assume(o >= prev)
         prev = o
+        named = vc.int("end_offset%d" % i)          # named leaf: counter-models are minimised over it
+        vc.assume(named == o)
     vc.assume(f.size - pos0 >= 4 * n + prev)
     out = vc.call(vc.interp.getattr_value(cls, "read_values"), f, n, order)
     vc.ensure("no-exception", out.kind == "ret")
